@@ -41,7 +41,11 @@ def write_text(path, text):
 def build(text, scratch, renames=None, parser_version=1, name=None, extra_files=None, policy=None):
     """Real Kconfig from Kconfig text (+ optional rename-file text)."""
     _counter[0] += 1
-    d = os.path.join(scratch, name or ("k%d" % _counter[0]))
+    # one directory per distinct input (not per construction: thorough tiers construct millions of instances)
+    import hashlib
+
+    key = hashlib.sha1(repr((text, sorted((extra_files or {}).items()), renames)).encode("utf-8", "surrogatepass")).hexdigest()[:20]
+    d = os.path.join(scratch, name or ("k" + key))
     os.makedirs(d, exist_ok=True)
     kpath = write_text(os.path.join(d, "Kconfig"), text)
     for fn, tx in (extra_files or {}).items():
